@@ -7,6 +7,7 @@ require (
 	github.com/cometbft/cometbft v0.37.5
 	github.com/cometbft/cometbft-db v0.8.0
 	github.com/cosmos/cosmos-sdk v0.47.13
+	github.com/anishathalye/porcupine v1.3.0
 	github.com/unification-com/mainchain v0.0.0
 )
 
